@@ -67,11 +67,13 @@ Proof.
     exists k0, k1, k2. split; [lra|]. rewrite frame_point. cbn [vx vy vz]. apply vsub_eq_iff. reflexivity.
 Qed.
 
-(** the sphere collider: axes r*e1, r*e2, r*e3 *)
-Theorem bridge_sphere (c : VQ) (r : Q) (x : V3R) : (0 <= Q2R r) ->
-  (sem (Sum (Pt c) (Ell (V r 0 0) (V 0 r 0) (V 0 0 r))) x <-> sphere_set (v2r c) (Q2R r) x)%Q.
+(** the ball of radius r: axes r*e1, r*e2, r*e3 (sphere collider, capsule, Margin) *)
+Definition qball (r : Q) : sh := Ell (V r 0%Q 0%Q) (V 0%Q r 0%Q) (V 0%Q 0%Q r).
+
+Theorem bridge_sphere (c : VQ) (r : Q) (x : V3R) : 0 <= Q2R r ->
+  (sem (Sum (Pt c) (qball r)) x <-> sphere_set (v2r c) (Q2R r) x).
 Proof.
-  intros Hr. rewrite bridge_ellipsoid, sphere_set_iff. split.
+  intros Hr. unfold qball. rewrite bridge_ellipsoid, sphere_set_iff. split.
   - intros ([k0 k1 k2] & Hk & ->). unfold ball_K, dot in Hk. cbn [vx vy vz add mul one ROps] in Hk.
     rewrite frame_point. unfold v2r. cbn [vx vy vz]. rewrite Q2R_0. vunfold. cbn [vx vy vz].
     ring_simplify. nra.
@@ -102,11 +104,12 @@ Proof.
   rewrite sem_Sum_Pt. cbn [sem]. rewrite qzero_r. split.
   - intros (y & z & (t & Ht & ->) & (t1 & t2 & t3 & Ht3 & ->) & E). exists (V t1 t2 t).
     split.
-    + unfold cylinder_K. cbn [vx vy vz]. split; [nra|]. apply Rabs_le_iff'. lra.
+    + unfold cylinder_K. cbn [vx vy vz]. split; [nra|]. assert (Rabs t <= 1) by (apply Rabs_le_iff'; lra). lra.
     + rewrite frame_point. cbn [vx vy vz]. apply vsub_eq_iff. rewrite E. vsimp. f_equal; ring.
   - intros ([k0 k1 k2] & [Hk Hz] & ->). cbn [vx vy vz] in *. rewrite frame_point. cbn [vx vy vz].
     exists (vscale k2 (v2r w)), (vadd (vscale k0 (v2r u)) (vadd (vscale k1 (v2r v)) (vscale 0 vzero))).
-    split; [exists k2; split; [apply Rabs_le_iff'; lra|reflexivity]|]. split.
+    assert (Hz1 : Rabs k2 <= 1) by lra.
+    split; [exists k2; split; [apply Rabs_le_iff'; exact Hz1|reflexivity]|]. split.
     + exists k0, k1, 0. split; [nra|reflexivity].
     + apply vsub_eq_iff. generalize (v2r c) (v2r u) (v2r v) (v2r w). intros. vsimp. f_equal; ring.
 Qed.
@@ -126,8 +129,8 @@ Qed.
 
 (** ** capsule: point + axis segment + ball of radius r = all points within r of the segment *)
 Theorem bridge_capsule (c w : VQ) (r : Q) (x : V3R) : 0 <= Q2R r ->
-  (sem (Sum (Pt c) (Sum (Seg w) (Ell (V r 0 0) (V 0 r 0) (V 0 0 r)))) x <->
-   exists t, -1 <= t <= 1 /\ dot (vsub x (vadd (v2r c) (vscale t (v2r w)))) (vsub x (vadd (v2r c) (vscale t (v2r w)))) <= Q2R r * Q2R r)%Q.
+  (sem (Sum (Pt c) (Sum (Seg w) (qball r))) x <->
+   exists t, -1 <= t <= 1 /\ dot (vsub x (vadd (v2r c) (vscale t (v2r w)))) (vsub x (vadd (v2r c) (vscale t (v2r w)))) <= Q2R r * Q2R r).
 Proof.
   intros Hr. rewrite sem_Sum_Pt. split.
   - intros (y & z & (t & Ht & ->) & Hz & E). exists t. split; auto.
@@ -168,7 +171,7 @@ Qed.
 
 (** ** Margin: Minkowski sum with the ball of radius m *)
 Theorem bridge_margin (s : sh) (m : Q) (x : V3R) : 0 <= Q2R m ->
-  (sem (Sum s (Ell (V m 0 0) (V 0 m 0) (V 0 0 m))) x <-> inflate (sem s) (Q2R m) x)%Q.
+  (sem (Sum s (qball m)) x <-> inflate (sem s) (Q2R m) x).
 Proof.
   intros Hm. split.
   - intros (y & z & Hy & Hz & ->). exists y, z. split; auto. split; auto.
